@@ -1,6 +1,6 @@
 """E2 decision tables shared by several properties (DESIGN.md 2.2)."""
 from front import AnalysisBroken
-from interp import Interp, State, Int, NULL, Ref, Str, Fn, Term, Rule, vkey, Unsupported
+from interp import Interp, State, Int, NULL, Ref, Str, Fn, Term, Rule, vkey, Unsupported, node_loc
 from model import build_model, msg_state
 from props.common import Env, flag_of
 
@@ -151,6 +151,9 @@ def config_post_oracle(env, c):
 BITS_REPR = (0, 255, 256, 257, 383, 384, 385, 455, 456, 457, 511, 512, 513, 520, 521, 522, 1024, 2047, 2048, 2049, 4096)
 
 
+GATE_PROVIDER_BRANCHES = set()
+
+
 def gate_table(prog, env, entry, provider_glob='jwt_openssl_ops'):
     """jwt_sign / jwt_verify_sig over alg x kty x bits: is a provider entry point reached?
 
@@ -178,6 +181,13 @@ def gate_table(prog, env, entry, provider_glob='jwt_openssl_ops'):
         def keep_event(self, ev):
             return ev[0] == 'api' and ev[1].startswith('ops.')
 
+        def on_branch(self, it, st, v, node):
+            # which provider is current, and which provider a key item was made by, must not decide whether the key is admitted
+            f_, o_, m_ = it.deps(vkey(v))
+            for m in m_:
+                if len(m) > 2 and m[2] == 'provider':
+                    GATE_PROVIDER_BRANCHES.add((entry, node_loc(node)))
+
         def indirect(self, it, fv, args, st, node):
             # jwt_ops-><field>(...)
             k = fv.k if isinstance(fv, Term) else None
@@ -193,7 +203,7 @@ def gate_table(prog, env, entry, provider_glob='jwt_openssl_ops'):
                 jwt = ('obj', 'jwt')
                 st.zero.add(jwt)
                 st.mem[(jwt, 'alg')] = Int(alg)
-                ko = mk_key(st, 'key', kty=kty, bits=bits)
+                ko = mk_key(st, 'key', kty=kty, bits=bits, extra={'provider': Term(('mem', ('obj', 'key'), 'provider'))})
                 st.mem[(jwt, 'key')] = Ref(ko)
                 ops = Term(('jwt_ops',), ptr=True)
                 st.ptrfact[ops.k] = 'nonnull'
